@@ -100,10 +100,13 @@ int rstr_find(struct rstr *rs, char *s, int n, int *grps, int flg)
 				(r[len] && isword(r + len))))
 			continue;
 		if (!match_case(r, rs->str, rs->icase)) {
+			int i;
 			if (n >= 1) {
 				grps[0] = r - s;
 				grps[1] = r - s + len;
 			}
+			for (i = 2; i < n * 2; i++)
+				grps[i] = -1;
 			return 0;
 		}
 	}
